@@ -366,7 +366,7 @@ def run(ctx):
 def replay(ctx, rp):
     load_minimize()
     p = Problem(rp["replay"]["problem"])
-    ctx.case({"replay": rp["signature"]})
+    ctx.case({"replay": rp["signature"]}, sample={"problem": rp["replay"]["problem"]["head"]})
     ctx.case({"replay": rp["signature"], "x": 1})
     n0 = len(ctx.violations)
     check_problems(ctx, [p], "replay")
